@@ -68,8 +68,74 @@ def alphabet(cfgname, tier):
     return [(dt, a, c) for dt in dts for a in addrs for c in cmds] + [(dt, addrs[0], "CLEANUP") for dt in (0.0, 1.5, 60.5)]
 
 
+WEB_RULES = {"ip": {"EVENT": "2/s", "REQ": "1/s"}, "global": {"CLOSE": "1/s"}}
+
+
+def run_web(case):
+    """the limiter's call sites in web.start_client: every command is either processed or answered 'rate-limited'; a refused
+    command has no effect; the reference is the same sliding window over the commands the handler let through"""
+    import json
+    import itertools
+    from ..harness import World
+    from ..universe import make_event
+
+    _, _, depth, tier = case
+    viol = []
+    n = 0
+    evs = [make_event("A", 1, 700 + i, [], "rl %d" % i) for i in range(6)]
+    alpha = ["EVENT", "REQ", "CLOSE", "WAIT"]
+    for seqn in itertools.product(alpha, repeat=depth):
+        w = World("kv", rate_limits=WEB_RULES, storage_options={"stats_interval": 1e15}, message_timeout=1e300)
+        try:
+            c = w.connect("c", "1.1.1.1")
+            w.run(1e6)
+            admitted = []  # (virtual time, command)
+            ei = 0
+            for j, cmd in enumerate(seqn):
+                h = ",".join(seqn[: j + 1])
+                if cmd == "WAIT":
+                    w.loop.advance(1.0)
+                    continue
+                now = w.loop.time()
+                n0 = len(c.transcript)
+                if cmd == "EVENT":
+                    fr = ["EVENT", evs[ei]]
+                    ei += 1
+                elif cmd == "REQ":
+                    fr = ["REQ", "s%d" % j, {"kinds": [1], "limit": 1}]
+                else:
+                    fr = ["CLOSE", "s0"]
+                w.send("c", fr, 1e6)
+                n += 1
+                sent = [json.loads(p) for k, _, p in c.transcript[n0:] if k == "send"]
+                limited = any((m[0] == "OK" and m[2] is False and "rate-limited" in m[3]) or (m[0] == "NOTICE" and "rate-limited" in m[1]) for m in sent)
+                rules = {"EVENT": (1, 2), "REQ": (1, 1), "CLOSE": (1, 1)}[cmd]
+                inwin_half = sum(1 for t, cc in admitted if cc == cmd and now - t < rules[0])
+                inwin_closed = sum(1 for t, cc in admitted if cc == cmd and now - t <= rules[0])
+                if limited and inwin_closed < rules[1]:
+                    viol.append({"case": "web", "clause": "refused-only-when-a-rule-is-full", "sig": h, "detail": "command refused as rate-limited with %d admitted in the window | seq=%s" % (inwin_closed, h)})
+                if not limited and inwin_half >= rules[1]:
+                    viol.append({"case": "web", "clause": "never-more-than-n-per-window", "sig": h, "detail": "command processed although %d were admitted in the window | seq=%s" % (inwin_half, h)})
+                if not limited:
+                    admitted.append((now, cmd))
+                if cmd == "EVENT":
+                    oks = [m for m in sent if m[0] == "OK"]
+                    stored = fr[1]["id"] in {k[1:].hex() for k, v in w.dump() if k[:1] == b"\x00" and len(k) == 33}
+                    if len(oks) != 1 or (oks[0][2] is True) != stored or (limited and stored):
+                        viol.append({"case": "web", "clause": "limited-command-has-no-effect", "sig": h, "detail": "EVENT: frames %r stored=%s limited=%s | seq=%s" % (sent[:2], stored, limited, h)})
+                if cmd == "REQ" and limited and any(m[0] in ("EVENT", "EOSE") for m in sent):
+                    viol.append({"case": "web", "clause": "limited-command-has-no-effect", "sig": h, "detail": "rate-limited REQ was served | seq=%s" % h})
+        finally:
+            w.close()
+    uniq = {}
+    for v in viol:
+        uniq.setdefault((v["clause"], v["sig"]), v)
+    return {"id": "web|depth=%d" % depth, "viol": list(uniq.values()), "outcome": "web", "states": n, "transitions": n, "evals": n, "nontrivial": True,
+            "desc": describe(case), "extra": {"web_commands": n}, "sample": {"case": "web", "commands": n}}
+
+
 def cases(tier):
-    out = []
+    out = [("__web__", (0.0, "1.1.1.1", "EVENT"), 4 if tier == "quick" else 5, tier)]
     depth = 4 if tier == "quick" else 5
     for cfgname in CONFIGS:
         d = depth + (1 if cfgname in DEEPER else 0)
@@ -102,6 +168,8 @@ def applicable(rules, addr, cmd):
 
 
 def run_case(case):
+    if case[0] == "__web__":
+        return run_web(case)
     cfgname, first, depth, tier = case
     from .. import env
 
